@@ -250,6 +250,48 @@ def expected_metrics(t, c):
     return out
 
 
+def is_month_end(d):
+    return (d + datetime.timedelta(days=1)).day == 1
+
+
+def month_lag(c):
+    """months from period_end to evaluation_date for month-aligned cells (None otherwise), computed from the
+    calendar only"""
+    if is_month_end(c.period_end) and is_month_end(c.evaluation_date):
+        return 12 * (c.evaluation_date.year - c.period_end.year) + (c.evaluation_date.month - c.period_end.month)
+    return None
+
+
+def calendar_cases(rng, n):
+    """monthly / quarterly triangles whose period ends and evaluation dates run through February of century years
+    (2000: leap, 2100: not), ordinary leap years and non-leap years"""
+    import calendar
+
+    from bermuda import CumulativeCell, Triangle
+
+    def me(y, m):
+        return D(y, m, calendar.monthrange(y, m)[1])
+
+    out = []
+    starts = [(1999, 11), (1999, 12), (2000, 1), (2000, 2), (2099, 12), (2100, 1), (2100, 2), (2023, 12), (2024, 1),
+              (2024, 2), (2019, 12), (2020, 2), (2022, 12), (2023, 2), (2003, 12), (2004, 2), (1996, 1)]
+    for i in range(n):
+        y0, m0 = starts[i % len(starts)]
+        res = rng.choice([1, 1, 1, 3])
+        cells = []
+        for p in range(rng.randint(1, 3)):
+            k = (y0 * 12 + m0 - 1) + p * res
+            ys, ms = k // 12, k % 12 + 1
+            ke = k + res - 1
+            pe = me(ke // 12, ke % 12 + 1)
+            for lag in range(rng.randint(2, 5)):
+                kv = ke + lag
+                cells.append(CumulativeCell(period_start=D(ys, ms, 1), period_end=pe, evaluation_date=me(kv // 12, kv % 12 + 1),
+                                            values={"paid_loss": 10.0 * (lag + 1) + p, "earned_premium": 100 + p}))
+        out.append((Triangle(cells), {"calendar": f"{y0}-{m0:02d}", "values": "float"}, f"calendar/{y0}-{m0:02d}/res{res}"))
+    return out
+
+
 def oracle(t, records=None):
     """Judge the records of build_plot_data(t) directly.  Returns None or a failure dict."""
     try:
@@ -264,6 +306,17 @@ def oracle(t, records=None):
         if got != want:
             return {"stage": "record i carries cell i's coordinates and lag (cell order)", "index": i,
                     "got": str(got), "want": str(want)}
+        # independent of bermuda.date_utils: for month-aligned cells the lag is the month-index difference
+        ml = month_lag(c)
+        if ml is not None:
+            if r["dev_lag"] != ml:
+                return {"stage": "dev_lag of a month-aligned cell is not the number of months between period end and "
+                                 "evaluation date", "index": i, "got": r["dev_lag"], "want": ml,
+                        "period_end": str(c.period_end), "evaluation_date": str(c.evaluation_date)}
+            row = [month_lag(x) for x in t.cells if x.period == c.period]
+            if all(x is not None for x in row) and r["last_lag"] != max(row):
+                return {"stage": "last_lag is not the largest month lag of the period", "index": i,
+                        "got": r["last_lag"], "want": max(row), "period": str(c.period)}
         exp = expected_metrics(t, c)
         have = {k: v for k, v in r.items() if k not in FIXED_KEYS and is_summary(v)}
         for name, e in exp.items():
@@ -411,7 +464,7 @@ def run(ctx):
 
     ctx.rule = (
         "cases: directed battery (sample array 0..9; two slices with equal periods; present-but-zero inputs; absent / None inputs) + harness.gen "
-        "triangles with the standard fields paid/reported/incurred loss, earned premium, reported claims (2-5 of them, "
+        "monthly / quarterly calendar triangles through Feb 2000 / Feb 2100 / leap and non-leap years (dev_lag and last_lag tied to the month-index difference), triangles with the standard fields paid/reported/incurred loss, earned premium, reported claims (2-5 of them, "
         "not always the same per cell, occasionally None), int / dyadic float scalars and int64 / float64 sample arrays "
         "(2-8 samples) and mixes, 1-3 slices, regular / ragged / holey layouts, 1-3 periods x 1-4 lags; present fields are "
         "regularly exactly zero (scalar 0 / 0.0, all-zero arrays, arrays containing zeros) with earned_premium non-zero; "
@@ -469,7 +522,8 @@ def run(ctx):
         ctx.coqc(ctx.build / "GenPlot.v", timeout=300)
     ctx.log("proof files done; generating cases")
     # 3. cases + direct oracle
-    cases = battery() + gen_cases(ctx, 110 if ctx.quick else 900)
+    cases = (battery() + calendar_cases(random.Random(ctx.seed * 97 + 2), 34 if ctx.quick else 170)
+             + gen_cases(ctx, 110 if ctx.quick else 900))
     fails = []
     for t, info, desc in cases:
         ctx.hist("case:" + desc.split("/")[0] + "/" + str(info.get("values", "")))
